@@ -24,8 +24,9 @@ type Gen struct {
 	Strange int                   // percent of "inapplicable" choices (wrong signer, someone else's address, wrong stage)
 	Excl    func(tag string) bool // known-finding exclusions (may be nil)
 	Kinds   map[string]int        // weight per action family name; nil => Mixed
-	Seen    map[string]int        // kinds drawn
-	TagsN   map[string]int        // value-class tags drawn
+	salt    uint64
+	Seen    map[string]int // kinds drawn
+	TagsN   map[string]int // value-class tags drawn
 }
 
 var (
@@ -36,11 +37,30 @@ var (
 	e18    = new(big.Int).Exp(big.NewInt(10), big.NewInt(18), nil)
 )
 
+// pct returns true with probability p/100. rapid's integer generators are deliberately biased
+// towards small values (IntRange(0,99) < 4 holds ~30% of the time), so the draw is passed through a
+// mixing function with a per-call salt: still a pure function of rapid's choices (shrinks and
+// replays), but approximately uniform.
 func (g *Gen) pct(p int, label string) bool {
 	if p <= 0 {
 		return false
 	}
-	return rapid.IntRange(0, 99).Draw(g.T, label) < p
+	return g.Uniform(100, label) < p
+}
+
+// Uniform draws an approximately uniform integer in [0, n).
+func (g *Gen) Uniform(n int, label string) int {
+	if n <= 1 {
+		return 0
+	}
+	g.salt++
+	x := rapid.Uint64().Draw(g.T, label) + g.salt*0x9e3779b97f4a7c15
+	x ^= x >> 30
+	x *= 0xbf58476d1ce4e5b9
+	x ^= x >> 27
+	x *= 0x94d049bb133111eb
+	x ^= x >> 31
+	return int(x % uint64(n))
 }
 
 func (g *Gen) excluded(tag string) bool { return g.Excl != nil && g.Excl(tag) }
@@ -479,6 +499,16 @@ func (g *Gen) Allegation() txgen.Tx {
 	w := g.W
 	rep := g.activeVal("rep")
 	acc := g.activeVal("acc")
+	if acc.Idx == rep.Idx && !g.pct(g.Strange, "selfalleg") {
+		if act := w.ActiveValIdx(); len(act) > 1 {
+			for _, ai := range act {
+				if ai != rep.Idx {
+					acc = w.G.U.Vals[ai]
+					break
+				}
+			}
+		}
+	}
 	id := fmt.Sprintf("req%d", len(w.Allegs)+1)
 	if len(w.Allegs) > 0 && g.pct(g.Strange, "dupid") {
 		id = w.Allegs[rapid.IntRange(0, len(w.Allegs)-1).Draw(g.T, "dup")].ID
@@ -544,6 +574,20 @@ func (g *Gen) Release() txgen.Tx {
 
 var domNames = []string{"alice.ol", "bob.ol", "carol.ol", "x.alice.ol", "y.alice.ol", "z.bob.ol", "dave.ol"}
 
+// existingDom prefers a name that was created in this history (for operations on existing names).
+func (g *Gen) existingDom(label string) string {
+	w := g.W
+	if len(w.Domains) > 0 && rapid.IntRange(0, 4).Draw(g.T, label+"-ex") != 0 {
+		return w.Domains[rapid.IntRange(0, len(w.Domains)-1).Draw(g.T, label+"-exi")].Name
+	}
+	return g.domName(label)
+}
+
+// domOwner returns the account that currently owns name according to the committed state (nil if unknown).
+func (g *Gen) domOwner(name string) *sim.User {
+	return g.W.DomainOwner(name)
+}
+
 func (g *Gen) domName(label string) string {
 	if g.pct(g.Hostile, label+"-h") {
 		return rapid.SampledFrom([]string{"", "nodot", "bad..ol", "alice.xyz", "a.b.c.d.ol", "ALICE.ol"}).Draw(g.T, label+"-hv")
@@ -561,7 +605,7 @@ func (g *Gen) onsPrice(label string) (*big.Int, string) {
 	if g.pct(g.Hostile, label+"-h") {
 		return g.amount(base, label+"-hv")
 	}
-	blocks := int64(rapid.IntRange(0, 40).Draw(g.T, label+"-blocks"))
+	blocks := int64(rapid.IntRange(1, 40).Draw(g.T, label+"-blocks"))
 	extra := int64(rapid.IntRange(0, 3).Draw(g.T, label+"-extra"))
 	v := new(big.Int).Add(base, new(big.Int).Mul(per, big.NewInt(blocks)))
 	v.Add(v, big.NewInt(extra))
@@ -583,6 +627,11 @@ func (g *Gen) DomainCreate() txgen.Tx {
 	s, strange := g.signerFor(u, "signer")
 	tx := txgen.DomainCreate(s, u.Addr, benef, name, "http://a.b/c", txgen.Amt("OLT", price), w.Fee, w.Memo())
 	tx.Tags = []string{mtag, atag}
+	for ui, x := range w.G.U.Users {
+		if x == u {
+			tx.Note = fmt.Sprintf("%s:%d", name, ui)
+		}
+	}
 	if strange {
 		g.tag(&tx, "signer-other")
 	}
@@ -591,10 +640,14 @@ func (g *Gen) DomainCreate() txgen.Tx {
 
 func (g *Gen) DomainUpdate() txgen.Tx {
 	w := g.W
+	name := g.existingDom("name")
 	u := g.domUser("u")
+	if o := g.domOwner(name); o != nil && !g.pct(g.Strange, "notowner") {
+		u = o
+	}
 	benef, atag := g.someAddr("benef")
 	s, strange := g.signerFor(u, "signer")
-	tx := txgen.DomainUpdate(s, u.Addr, benef, g.domName("name"), rapid.Bool().Draw(g.T, "active"), rapid.SampledFrom([]string{"http://a.b", "ftp://x.y/z", "", "notauri"}).Draw(g.T, "uri"), w.Fee, w.Memo())
+	tx := txgen.DomainUpdate(s, u.Addr, benef, name, rapid.Bool().Draw(g.T, "active"), rapid.SampledFrom([]string{"http://a.b", "ftp://x.y/z", "", "notauri"}).Draw(g.T, "uri"), w.Fee, w.Memo())
 	tx.Tags = []string{atag}
 	if strange {
 		g.tag(&tx, "signer-other")
@@ -604,10 +657,14 @@ func (g *Gen) DomainUpdate() txgen.Tx {
 
 func (g *Gen) DomainSale() txgen.Tx {
 	w := g.W
+	name := g.existingDom("name")
 	u := g.domUser("u")
+	if o := g.domOwner(name); o != nil && !g.pct(g.Strange, "notowner") {
+		u = o
+	}
 	price, mtag := g.amount(oltWhole(50), "price")
 	s, strange := g.signerFor(u, "signer")
-	tx := txgen.DomainSale(s, u.Addr, g.domName("name"), txgen.Amt("OLT", price), rapid.IntRange(0, 4).Draw(g.T, "cancel") == 0, w.Fee, w.Memo())
+	tx := txgen.DomainSale(s, u.Addr, name, txgen.Amt("OLT", price), rapid.IntRange(0, 4).Draw(g.T, "cancel") == 0, w.Fee, w.Memo())
 	tx.Tags = []string{mtag}
 	if strange {
 		g.tag(&tx, "signer-other")
@@ -627,7 +684,7 @@ func (g *Gen) DomainPurchase() txgen.Tx {
 		acct, atag = g.someAddr("acct")
 	}
 	s, strange := g.signerFor(u, "signer")
-	tx := txgen.DomainPurchase(s, u.Addr, acct, g.domName("name"), txgen.Amt("OLT", offer), w.Fee, w.Memo())
+	tx := txgen.DomainPurchase(s, u.Addr, acct, g.existingDom("name"), txgen.Amt("OLT", offer), w.Fee, w.Memo())
 	tx.Tags = []string{mtag, atag}
 	if strange {
 		g.tag(&tx, "signer-other")
@@ -642,7 +699,7 @@ func (g *Gen) DomainSend() txgen.Tx {
 	amt, mtag := g.amount(capv, "amt")
 	cur, ctag := g.currency("OLT", "cur")
 	s, strange := g.signerFor(u, "signer")
-	tx := txgen.DomainSend(s, u.Addr, g.domName("name"), txgen.Amt(cur, amt), w.Fee, w.Memo())
+	tx := txgen.DomainSend(s, u.Addr, g.existingDom("name"), txgen.Amt(cur, amt), w.Fee, w.Memo())
 	tx.Tags = []string{mtag, ctag}
 	if strange {
 		g.tag(&tx, "signer-other")
@@ -652,7 +709,11 @@ func (g *Gen) DomainSend() txgen.Tx {
 
 func (g *Gen) DomainRenew() txgen.Tx {
 	w := g.W
+	name := g.existingDom("name")
 	u := g.domUser("u")
+	if o := g.domOwner(name); o != nil && !g.pct(g.Strange, "notowner") {
+		u = o
+	}
 	per, _ := new(big.Int).SetString(w.P.OnsPerBlock, 10)
 	v := new(big.Int).Mul(per, big.NewInt(int64(rapid.IntRange(0, 30).Draw(g.T, "blocks"))))
 	v.Add(v, big.NewInt(int64(rapid.IntRange(0, 2).Draw(g.T, "extra"))))
@@ -661,7 +722,7 @@ func (g *Gen) DomainRenew() txgen.Tx {
 		v, mtag = g.amount(per, "price-hv")
 	}
 	s, strange := g.signerFor(u, "signer")
-	tx := txgen.DomainRenew(s, u.Addr, g.domName("name"), txgen.Amt("OLT", v), w.Fee, w.Memo())
+	tx := txgen.DomainRenew(s, u.Addr, name, txgen.Amt("OLT", v), w.Fee, w.Memo())
 	tx.Tags = []string{mtag}
 	if strange {
 		g.tag(&tx, "signer-other")
@@ -671,9 +732,13 @@ func (g *Gen) DomainRenew() txgen.Tx {
 
 func (g *Gen) DomainDeleteSub() txgen.Tx {
 	w := g.W
+	name := g.existingDom("name")
 	u := g.domUser("u")
+	if o := g.domOwner(name); o != nil && !g.pct(g.Strange, "notowner") {
+		u = o
+	}
 	s, strange := g.signerFor(u, "signer")
-	tx := txgen.DomainDeleteSub(s, u.Addr, g.domName("name"), w.Fee, w.Memo())
+	tx := txgen.DomainDeleteSub(s, u.Addr, name, w.Fee, w.Memo())
 	if strange {
 		g.tag(&tx, "signer-other")
 	}
@@ -683,19 +748,34 @@ func (g *Gen) DomainDeleteSub() txgen.Tx {
 // ---------------- governance ----------------
 
 func (g *Gen) pickProp(label string) *PropInfo {
+	return g.pickPropWhere(label, nil)
+}
+
+// pickPropWhere prefers a recent proposal satisfying want (state read on the committed tree).
+func (g *Gen) pickPropWhere(label string, want func(p *PropInfo) bool) *PropInfo {
 	w := g.W
 	if len(w.Props) == 0 {
 		return &PropInfo{ID: txgen.ProposalID("none")}
 	}
-	i := len(w.Props) - 1 - rapid.IntRange(0, min(2, len(w.Props)-1)).Draw(g.T, label)
+	if want != nil && !g.pct(g.Strange, label+"-anystage") {
+		for i := len(w.Props) - 1; i >= 0 && i >= len(w.Props)-5; i-- {
+			if want(w.Props[i]) {
+				return w.Props[i]
+			}
+		}
+	}
+	i := len(w.Props) - 1 - g.Uniform(min(3, len(w.Props)), label)
 	return w.Props[i]
 }
 
 // ConfigUpdates are option strings for config-update proposals (valid and invalid).
 var ConfigUpdates = []string{
-	"staking.topValidatorCount:8", "staking.maturityTime:109300", "staking.minSelfDelegationAmount:600000",
-	"evidence.blockVotesDiff:1100", "fee.minFeeDecimal:9", "bogus.key:1", "nocolon", "staking.topValidatorCount:1",
-	"proposal.general.passPercentage:60", "ons.perBlockFees:100000000000001", "rewards.rewardInterval:150",
+	// keys as registered in action/govUpdate.go; every update re-validates its whole option group, so from small
+	// genesis values only the fee / ons ones (and, with main-net sized staking options, the staking ones) can pass
+	"feeOption.minFeeDecimal:9", "feeOption.minFeeDecimal:8", "onsOptions.perBlockFees:100000000000001", "onsOptions.baseDomainPrice:1000000000000000000001",
+	"stakingOptions.maturityTime:109300", "stakingOptions.topValidatorCount:8", "stakingOptions.minSelfDelegationAmount:600000",
+	"evidenceOptions.blockVotesDiff:1100", "propOptions.general.passPercentage:60", "rewardOptions.rewardInterval:150",
+	"bogus.key:1", "nocolon", "stakingOptions.topValidatorCount:1", "feeOption.minFeeDecimal:99",
 }
 
 func (g *Gen) ProposalCreate() txgen.Tx {
@@ -704,7 +784,7 @@ func (g *Gen) ProposalCreate() txgen.Tx {
 	typ := rapid.SampledFrom([]governance.ProposalType{governance.ProposalTypeGeneral, governance.ProposalTypeGeneral, governance.ProposalTypeConfigUpdate, governance.ProposalTypeCodeChange}).Draw(g.T, "type")
 	id := txgen.ProposalID(fmt.Sprintf("p%d-%d", len(w.Props)+1, w.memoN))
 	h := w.C.Height + 1
-	fundDL := h + int64(rapid.IntRange(1, int(w.P.PropFundingDL)).Draw(g.T, "funddl"))
+	fundDL := h + 1 + int64(g.Uniform(int(w.P.PropFundingDL), "funddl"))
 	voteDL := fundDL + w.P.PropVotingDL
 	initial, _ := new(big.Int).SetString(w.P.PropInitialFunding, 10)
 	goal, _ := new(big.Int).SetString(w.P.PropFundingGoal, 10)
@@ -737,7 +817,10 @@ func (g *Gen) ProposalCreate() txgen.Tx {
 
 func (g *Gen) ProposalFund() txgen.Tx {
 	w := g.W
-	p := g.pickProp("prop")
+	if len(w.Props) == 0 && !g.pct(g.Strange, "fund-none") {
+		return g.ProposalCreate()
+	}
+	p := g.pickPropWhere("prop", func(p *PropInfo) bool { return w.PropFunding(p.ID) && p.FundDL > w.C.Height+1 })
 	_, u := g.user("u")
 	goal, _ := new(big.Int).SetString(w.P.PropFundingGoal, 10)
 	var amt *big.Int
@@ -765,7 +848,7 @@ func (g *Gen) ProposalFund() txgen.Tx {
 
 func (g *Gen) ProposalCancel() txgen.Tx {
 	w := g.W
-	p := g.pickProp("prop")
+	p := g.pickPropWhere("prop", func(p *PropInfo) bool { return w.PropFunding(p.ID) })
 	u := w.G.U.Users[p.Proposer%len(w.G.U.Users)]
 	s, strange := g.signerFor(u, "signer")
 	tx := txgen.ProposalCancel(s, p.ID, u.Addr, "because", w.Fee, w.Memo())
@@ -777,7 +860,13 @@ func (g *Gen) ProposalCancel() txgen.Tx {
 
 func (g *Gen) ProposalVote() txgen.Tx {
 	w := g.W
-	p := g.pickProp("prop")
+	if len(w.Props) == 0 && !g.pct(g.Strange, "vote-none") {
+		return g.ProposalCreate()
+	}
+	p := g.pickPropWhere("prop", func(p *PropInfo) bool { return w.PropVoting(p.ID) })
+	if !w.PropVoting(p.ID) && w.PropFunding(p.ID) && !g.pct(g.Strange, "vote-early") {
+		return g.ProposalFund()
+	}
 	v := g.activeVal("val")
 	op := rapid.SampledFrom([]governance.VoteOpinion{governance.OPIN_POSITIVE, governance.OPIN_POSITIVE, governance.OPIN_POSITIVE, governance.OPIN_NEGATIVE, governance.OPIN_GIVEUP}).Draw(g.T, "op")
 	tags := []string{}
